@@ -204,15 +204,15 @@ impl GenerationPass for AvailableValuePass {
                         })
                         .collect();
                     // A called function may use everything below the stack pointer for its own
-                    // frame, so slots below it do not survive a call
+                    // frame, so slots below it do not survive a call; neither does what is known
+                    // about CSRs (and memory addressed through them), which the callee may write
                     if node.calls_to().is_some() {
                         let curr_stack = node.reg_values_in().stack_offset();
                         map = map
                             .into_iter()
                             .filter(|(location, _)| match (location, curr_stack) {
                                 (MemoryLocation::StackOffset(slot), Some(curr)) => *slot >= curr,
-                                (MemoryLocation::StackOffset(_), None) => false,
-                                _ => true,
+                                _ => false,
                             })
                             .collect();
                     }
